@@ -13,6 +13,24 @@ use std::io::Write;
 
 pub type AnyResult<T> = anyhow::Result<T>;
 
+// --------------------------------------------------------------------------- contract wrappers
+/// `contract_code!(krate, reply_flag, sudo_flag, migrate_flag)`: the cw-multi-test wrapper of a contract with every
+/// entry point its `contract.rs` defines (build.rs sets the cfg flags from /repo's working tree)
+#[macro_export]
+macro_rules! contract_code {
+    ($krate:ident, $r:ident, $s:ident, $m:ident) => {{
+        let c = cw_multi_test::ContractWrapper::new($krate::contract::execute, $krate::contract::instantiate, $krate::contract::query);
+        #[cfg($r)]
+        let c = c.with_reply($krate::contract::reply);
+        #[cfg($s)]
+        let c = c.with_sudo($krate::contract::sudo);
+        #[cfg($m)]
+        let c = c.with_migrate($krate::contract::migrate);
+        let b: Box<dyn cw_multi_test::Contract<cosmwasm_std::Empty>> = Box::new(c);
+        b
+    }};
+}
+
 // ------------------------------------------------------------------------------------------ rng
 /// splitmix64 — deterministic, seedable, no external crate.
 #[derive(Clone)]
@@ -280,12 +298,45 @@ thread_local! {
 }
 /// panics inside the code under test are data (recorded in the trace); panics of the harness
 /// itself are printed
+thread_local! {
+    pub static PANIC_MSG: RefCell<String> = RefCell::new(String::new());
+}
 pub fn silence_panics() {
     std::panic::set_hook(Box::new(|info| {
         if !IN_CALL.with(|c| c.get()) {
-            eprintln!("harness panic: {info}");
+            PANIC_MSG.with(|m| *m.borrow_mut() = format!("{info}"));
         }
     }));
+}
+/// Runs one run of a driver.  A panic outside a guarded call means that observing the contract failed (a query
+/// that always answers on a correct contract returned an error, an address nobody registered showed up, ...):
+/// that is data about the code under test, recorded as an anomaly of the run, not a failure of the tool.
+pub fn run_guarded(out: &mut Out, f: impl FnOnce(&mut Out)) {
+    out.in_run = false;
+    let r = std::panic::catch_unwind(std::panic::AssertUnwindSafe(|| f(&mut *out)));
+    if r.is_err() {
+        let msg = PANIC_MSG.with(|m| m.borrow().clone());
+        IN_CALL.with(|c| c.set(false));
+        match (out.in_run, out.last.clone()) {
+            (true, Some(mut ev)) => {
+                if ev["act"] == "reset" {
+                    ev["act"] = json!("advance");
+                    ev["by"] = json!("env");
+                    ev["args"] = json!({"dh": 0, "dt": 0});
+                    ev.as_object_mut().unwrap().remove("cfg");
+                }
+                ev["ok"] = json!(false);
+                ev["err"] = json!("observation failed");
+                ev["out"] = json!([]);
+                ev["anom"] = json!([format!("observing the contract failed: {}", msg.replace('\n', " "))]);
+                out.emit(&ev);
+            }
+            _ => {
+                eprintln!("harness panic before the run started: {msg}");
+                std::process::exit(101);
+            }
+        }
+    }
 }
 pub fn guarded<T>(f: impl FnOnce() -> T) -> std::thread::Result<T> {
     IN_CALL.with(|c| c.set(true));
@@ -338,11 +389,13 @@ pub struct Out {
     pub events: u64,
     pub runs: u64,
     pub counts: BTreeMap<String, (u64, u64)>, // act -> (attempted, succeeded)
+    pub last: Option<Value>,
+    pub in_run: bool,
 }
 impl Out {
     pub fn create(path: &str) -> Self {
         let f = std::fs::File::create(path).unwrap_or_else(|e| panic!("cannot create {path}: {e}"));
-        Out { w: std::io::BufWriter::with_capacity(1 << 20, f), events: 0, runs: 0, counts: BTreeMap::new() }
+        Out { w: std::io::BufWriter::with_capacity(1 << 20, f), events: 0, runs: 0, counts: BTreeMap::new(), last: None, in_run: false }
     }
     pub fn emit(&mut self, ev: &Value) {
         let act = ev.get("act").and_then(|a| a.as_str()).unwrap_or("?").to_string();
@@ -354,7 +407,9 @@ impl Out {
         }
         if act == "reset" {
             self.runs += 1;
+            self.in_run = true;
         }
+        self.last = Some(ev.clone());
         self.events += 1;
         serde_json::to_writer(&mut self.w, ev).unwrap();
         self.w.write_all(b"\n").unwrap();
